@@ -97,12 +97,8 @@ def zooSpec : List (String × String × String) :=
    ("keys_after_dropped_writes", "!throw:TypeError", "struct_write_dropped_expando"),
    ("slice_unshift", "5:8,9,1,2,3|go:[8 9 1]", "slice_write_beyond_length_rejected"),
    ("slice_splice_insert", ":1,7,7,2,3|go:[1 7 7]", "slice_write_beyond_length_rejected"),
-   ("map_forin_delete_during", "1|go:0", "map_forin_visits_deleted_keys"),
-   ("map_enumeration_order", "stable|go:6", "map_enumeration_order_random"),
-   ("slice_forin_shrink_during", "0|go:[1 2 3]", "slice_forin_visits_removed_indices"),
    ("struct_promoted_enumeration", "true,x,true|A,B,Y,ZIn|A,B,Y,ZIn", "struct_promoted_fields_not_enumerated"),
    ("nested_container_identity", "true,true,true", "bridged_value_identity_not_preserved"),
-   ("store_array_into_slice_elem", "stored:4,5|go:[{1 []}]|[[4 5]]|false|[[1 2]]|int:1", "store_array_into_slice_element_rejected"),
-   ("store_utf16_string_into_interface_elem", "stored:A|go:[{1 []}]|[[1]]|false|[[1 2]]|string:A", "store_utf16_string_into_interface_arrives_as_units")]
+   ("store_array_into_slice_elem", "stored:4,5|go:[{1 []}]|[[4 5]]|false|[[1 2]]|int:1", "store_array_into_slice_element_rejected")]
 
 end OttoVerif.C16.Spec
